@@ -499,6 +499,90 @@ fn run_label_scenario(rng: &mut Rng, cases: &mut Vec<Case>) {
     }
 }
 
+// ---------------------------------------------------------------------------------------
+// Re-evaluation scenarios: a later row must re-evaluate the pattern against the CURRENT
+// graph.  Multi-row (UNWIND / MATCH driven) MERGE whose pattern is literal-only and whose
+// ON CREATE SET / ON MATCH SET rewrites a key (or is followed by a clause that relabels /
+// deletes what the row bound), so that each row's match set differs from the previous
+// row's.  The bound node itself is RETURNed per row, so a stale binding shows in the rows
+// (handles, compared modulo the renaming certificate) as well as in the graph.
+// (Class of the seeded change C04-b: a per-statement cache of the node a MERGE resolved to.)
+// ---------------------------------------------------------------------------------------
+
+fn gen_reeval_stmt(rng: &mut Rng) -> St {
+    let label = rng.below(2) as u32; // slots live under L0 or L1
+    let free = 0i64;
+    let taken = 1i64;
+    let n_rows = 2 + rng.usize(3);
+    let vals: Vec<i64> = shuffled(rng, (10..10 + n_rows as u32).collect()).into_iter().map(|x| x as i64).collect();
+    let pat_extra = rng.chance(1, 4);
+    let mut props = vec![(0u32, int(free))];
+    if pat_extra {
+        props.push((2, int(5)));
+    }
+    let pat = NPat { var: Some(1), labels: if rng.chance(1, 4) { vec![label, 2] } else { vec![label] }, props };
+    let take = |owner: bool| {
+        let mut v = vec![SetItem::Prop(1, 0, int(taken))];
+        if owner {
+            v.push(SetItem::Prop(1, 1, Ex::Var(0)));
+        }
+        v
+    };
+    let ret = |rng: &mut Rng| if rng.chance(3, 4) { Some(vec![Ex::Var(0), Ex::Var(1)]) } else { None };
+    match rng.below(8) {
+        // the seeded witness: ON CREATE rewrites the key, every row must create
+        0 | 1 => St { cls: vec![Cl::Unwind(Ex::List(vals.iter().map(|v| int(*v)).collect()), 0), Cl::Merge(pat, take(true), vec![])], ret: ret(rng) },
+        // ON MATCH and ON CREATE both take the slot
+        2 | 3 => St { cls: vec![Cl::Unwind(Ex::List(vals.iter().map(|v| int(*v)).collect()), 0), Cl::Merge(pat, take(true), take(true))], ret: ret(rng) },
+        // ON MATCH takes the slot, ON CREATE leaves it free: rows alternate create / match
+        4 => St { cls: vec![Cl::Unwind(Ex::List(vals.iter().map(|v| int(*v)).collect()), 0), Cl::Merge(pat, vec![SetItem::Prop(1, 1, Ex::Var(0))], take(false))], ret: ret(rng) },
+        // the counter idiom (the pattern keeps matching): the cache would be right here
+        5 => St { cls: vec![Cl::Unwind(Ex::List(vals.iter().map(|v| int(*v)).collect()), 0), Cl::Merge(pat, vec![SetItem::Prop(1, 1, int(0))], vec![SetItem::Prop(1, 1, bin("add", Ex::Prop(1, 1), int(1)))])], ret: if rng.chance(1, 2) { Some(vec![Ex::Var(0), Ex::Var(1)]) } else { None } },
+        // MATCH driven rows
+        6 => St {
+            cls: vec![Cl::MatchN(3, vec![2], vec![]), Cl::Filter(Ex::Un("notnull", Box::new(Ex::Prop(3, 0)))), Cl::Merge(NPat { var: Some(1), labels: vec![label], props: vec![(0, int(free))] }, vec![SetItem::Prop(1, 0, int(taken)), SetItem::Prop(1, 1, Ex::Prop(3, 0))], vec![SetItem::Prop(1, 0, int(taken)), SetItem::Prop(1, 1, Ex::Prop(3, 0))])],
+            ret: if rng.chance(1, 2) { Some(vec![Ex::Prop(3, 0), Ex::Var(1)]) } else { None },
+        },
+        // each row deletes what it bound: the next row must not find it
+        _ => St { cls: vec![Cl::Unwind(Ex::List(vals.iter().map(|v| int(*v)).collect()), 0), Cl::Merge(pat, vec![], vec![]), Cl::With(vec![1, 0], vec![]), Cl::Delete(true, vec![1])], ret: None },
+    }
+}
+
+fn run_reeval_scenario(rng: &mut Rng, cases: &mut Vec<Case>) {
+    let node = |ls: Vec<u32>, props: Vec<(u32, Ex)>| St { cls: vec![Cl::Create(vec![CPath { a: NPat { var: None, labels: ls, props }, seg: None }])], ret: None };
+    let mut setup = vec![];
+    // at most ONE free slot per label exists at any time (a MERGE with several matches is
+    // outside what S and the engine agree on), any number of taken ones
+    for label in 0..2u32 {
+        if rng.chance(1, 2) {
+            setup.push(node(vec![label], vec![(0, int(0))]));
+        }
+        for _ in 0..rng.usize(3) {
+            setup.push(node(vec![label], vec![(0, int(1)), (1, int(rng.range(1, 3)))]));
+        }
+    }
+    // the MATCH-driven rows: :L2 nodes with distinct k0
+    for i in 0..rng.usize(4) {
+        setup.push(node(vec![2], vec![(0, int(40 + i as i64))]));
+    }
+    let mut store = GraphStore::new();
+    let mut texts = vec![];
+    let n_stmts = 3 + rng.usize(4);
+    for k in 0..setup.len() + n_stmts {
+        let pre = dump(&store);
+        let st = if k < setup.len() { setup[k].clone() } else { gen_reeval_stmt(rng) };
+        let text = st.cypher();
+        texts.push(text.clone());
+        let o = exec(&mut store, &text, None);
+        let post = dump(&store);
+        let out = match &o.rows {
+            Ok(rows) => Ok(rows_text(rows)),
+            Err((k, _)) => Err(k.tag().to_string()),
+        };
+        cases.push(Case { pre, st, text, out, post, seq_texts: texts.clone() });
+    }
+}
+
 struct Case {
     pre: String,
     st: St,
@@ -595,6 +679,10 @@ fn main() {
                 stmts.push(if rng.chance(1, 40) { gen_known(&mut rng) } else { gen_stmt(&mut rng) });
             }
             run_sequence(&stmts, &mut cases);
+        }
+        let n_re = if args.thorough() { 2500 } else { 300 };
+        for _ in 0..n_re {
+            run_reeval_scenario(&mut rng, &mut cases);
         }
         let n_lab = if args.thorough() { 2500 } else { 300 };
         for _ in 0..n_lab {
@@ -712,7 +800,7 @@ fn main() {
         // S holds; M must agree with R as well (rows as bags, graph up to the certificate)
         let (mok, mrows, _) = split_reply(m);
         let agree = match &f.out {
-            Ok(rows) => mok && sort_rows_text(&mrows) == *rows && rens[i].is_some(),
+            Ok(rows) => mok && rens[i].is_some() && sort_rows_text(&mrows) == rename_rows(rows, rens[i].as_deref().unwrap_or(&[])),
             Err(_) => !mok,
         };
         if !agree {
